@@ -74,11 +74,17 @@ func (a *absState) apply(b *SBlock) {
 	for addr, ch := range b.Deployed {
 		a.contracts[addr] = &absContract{class: hexFelt(ch), storage: map[string]felt.Felt{}}
 	}
+	// (replace / nonce on an address that does not exist: an invalid diff — shrinking can produce
+	// one; it is then no longer a candidate, see validState)
 	for addr, ch := range b.Replaced {
-		a.contracts[addr].class = hexFelt(ch)
+		if c, ok := a.contracts[addr]; ok {
+			c.class = hexFelt(ch)
+		}
 	}
 	for addr, n := range b.Nonces {
-		a.contracts[addr].nonce = hexFelt(n)
+		if c, ok := a.contracts[addr]; ok {
+			c.nonce = hexFelt(n)
+		}
 	}
 	for addr, st := range b.Storage {
 		c, ok := a.contracts[addr]
@@ -887,7 +893,56 @@ func directedStateCases() []*StateCase {
 
 // ---- evaluation --------------------------------------------------------------------------------------
 
-func shrinkState(c *StateCase, fails func(*StateCase) bool) *StateCase {
+// validState: the history only contains diffs that are valid on the state before them (shrinking
+// must not turn a history into an invalid one)
+func validState(c *StateCase) bool {
+	a := newAbs()
+	okDiff := func(b *SBlock) bool {
+		for addr := range b.Deployed {
+			if _, ok := a.contracts[addr]; ok || isSystem(addr) {
+				return false
+			}
+		}
+		exists := func(addr string) bool {
+			if _, ok := a.contracts[addr]; ok {
+				return true
+			}
+			_, ok := b.Deployed[addr]
+			return ok
+		}
+		for addr := range b.Replaced {
+			if !exists(addr) || isSystem(addr) {
+				return false
+			}
+		}
+		for addr := range b.Nonces {
+			if !exists(addr) || isSystem(addr) {
+				return false
+			}
+		}
+		for addr := range b.Storage {
+			if !exists(addr) && !isSystem(addr) {
+				return false
+			}
+		}
+		return true
+	}
+	for n := range c.Blocks {
+		for _, d := range c.Blocks[n].Before {
+			if !okDiff(&d.Diff) {
+				return false
+			}
+		}
+		if !okDiff(&c.Blocks[n]) {
+			return false
+		}
+		a.apply(&c.Blocks[n])
+	}
+	return true
+}
+
+func shrinkState(c *StateCase, fails0 func(*StateCase) bool) *StateCase {
+	fails := func(c *StateCase) bool { return validState(c) && fails0(c) }
 	cur := &StateCase{Blocks: append([]SBlock{}, c.Blocks...)}
 	if !fails(cur) {
 		return c
@@ -967,7 +1022,7 @@ func checkStateCases(f lib.Flags, res *lib.Result, drv *lib.Driver, cases []*Sta
 				o.chN, o.chO = &a, &b
 			}
 		}) {
-			o.nw.Err = "hang"
+			o.nw.Err = "hang: the state histories did not finish within the deadline"
 		}
 		o.want, o.alt = specStateTrace(c)
 		outs[i] = o
@@ -989,6 +1044,7 @@ func checkStateCases(f lib.Flags, res *lib.Result, drv *lib.Driver, cases []*Sta
 			}
 			a, err := drv.AskAll(all)
 			if err != nil {
+				res.Fatalf("Lean driver died / answered short in family %s: %v", family, err)
 				res.Mismatch(lib.Mismatch{Sig: "driver-died", Input: family, Model: err.Error()})
 				a = nil
 			}
